@@ -24,6 +24,7 @@ var pureFuncs = map[string]bool{
 var inOutFuncs = map[string]bool{
 	"internal/ge25519.nielsAdd2":     true, // r = r + q
 	"internal/ge25519.p1p1ToPartial": true, // leaves r.t untouched
+	"internal/modm.reduce":           true, // r = r mod L in place
 }
 
 // rootModel builds the call model with role names for the root package.
